@@ -117,8 +117,36 @@ def main():
         for name in ("rules_manager",) if len(ev) % 7 else ("rules_manager", "automated"):
             m = SyntheticRuleMatcher(copy.deepcopy(dbs[name]), dict(v), select="all", ranking="ion_priority")
             sols = m.match()
-            add({"ev": "match", "db": name, "data": v, "natoms": sum(x for k_, x in v.items() if k_ != "Q"),
+            add({"ev": "match", "db": name, "data": v, "natoms": sum(x for k_, x in v.items() if k_ != "Q"), "mode": "all/ion_priority",
                  "solutions": [[{"smiles": x["smiles"], "ratio": x["Ratio"]} for x in s] for s in sols]})
+    # other selection / ranking modes (select='best' is the class default), multiples of database compounds
+    # (ratios >= 3, charges of magnitude >= 3), both databases: exactness only
+    modes = [("best", False), ("best", "longest"), ("all", "longest"), ("all", "least"), ("all", "greatest"), ("all", False)]
+    scaled = []
+    for name, db in dbs.items():
+        for rec in db:
+            for k in (3, 5, 12):
+                v = {el: n * k for el, n in rec["Composition"].items() if n != 0}
+                scaled.append((name, v))
+    combos = []
+    recs = dbs["rules_manager"]
+    for _ in range(60 if tier == "quick" else 600):
+        a, b = rng.sample(recs, 2)
+        v = {}
+        for rec, k in ((a, rng.choice((1, 2, 4))), (b, rng.choice((1, 3)))):
+            for el, n in rec["Composition"].items():
+                v[el] = v.get(el, 0) + n * k
+        combos.append(("rules_manager", {el: n for el, n in v.items() if n != 0}))
+    extra_vs = scaled + combos + [("rules_manager", dict(v)) for v in rng.sample(uniq, min(len(uniq), 150 if tier == "quick" else 1500))]
+    for k, (name, v) in enumerate(extra_vs):
+        nat = sum(x for k_, x in v.items() if k_ != "Q")
+        if nat > 40:
+            continue
+        sel, rk = modes[k % len(modes)] if nat <= 9 else ("best", False)
+        m = SyntheticRuleMatcher(copy.deepcopy(dbs[name]), dict(v), select=sel, ranking=rk)
+        sols = m.match()
+        add({"ev": "match", "db": name, "data": v, "natoms": 99, "mode": "%s/%s" % (sel, rk),
+             "solutions": [[{"smiles": x["smiles"], "ratio": x["Ratio"]} for x in s] for s in sols if s is not None]})
     # single_impute on synthetic entries: which molecules get appended where
     sample = rng.sample(uniq, min(len(uniq), 400 if tier == "quick" else 4000))
     solved_entries = []
@@ -138,6 +166,18 @@ def main():
              "has_new_reaction": "new_reaction" in res})
         if "new_reaction" in res:
             solved_entries.append(res)
+    # parallel_impute must agree with single_impute entry by entry
+    par_in = [{"Diff_formula": dict(v), "Unbalance": "Products" if k % 2 else "Reactants", "reactants": "CCO.CC",
+               "products": "CCOCC", "id": str(k)} for k, v in enumerate(sample[:60])]
+    imp = SyntheticRuleImputer(rule_dict=copy.deepcopy(dbs["rules_manager"]), select="all", ranking="ion_priority")
+    par_out = imp.parallel_impute(copy.deepcopy(par_in), n_jobs=2)
+    for k, (e_in, e_out) in enumerate(zip(par_in, par_out)):
+        one = SyntheticRuleImputer.single_impute(copy.deepcopy(e_in), copy.deepcopy(dbs["rules_manager"]), select="all",
+                                                 ranking="ion_priority")
+        same = (e_out.get("new_reaction"), e_out["reactants"], e_out["products"], e_out.get("id")) == \
+               (one.get("new_reaction"), one["reactants"], one["products"], one.get("id"))
+        add({"ev": "parallel", "entry": k, "data": e_in["Diff_formula"], "same": same,
+             "parallel": str(e_out.get("new_reaction")), "single": str(one.get("new_reaction"))})
     # RuleConstraint.fit on the solved entries (+ handcrafted product sides with halogens)
     extra = []
     for prod in ("CCOCC.ClCl", "CCOCC.BrBr", "CCOCC.ClBr", "CCOCC.Cl", "CCOCC.[Cl-]", "CCOCC.II", "CCOCC.FF",
